@@ -75,7 +75,7 @@ def case_st(draw):
     spec = {"dims": dims, "labels": labels, "vk": vk, "vals": vals, "attrs": {"units": "K", "h": [1]}}
     case = {"mode": mode, "spec": spec, "ax": ax, "axis_form": draw(st.sampled_from(["name", "pos", "neg"])), "new": draw(points(labels[ax])),
             "left": draw(st.sampled_from(["nan", "nan", -77.0, 0, 0.0])), "right": draw(st.sampled_from(["nan", "nan", 88.0, 0, 0.0])),
-            "issorted": draw(st.sampled_from([None, None, True])), "new_as": draw(st.sampled_from(["list", "array"]))}
+            "issorted": draw(st.sampled_from([None, None, True])), "new_as": draw(st.sampled_from(["list", "array"])), "positional": draw(st.integers(0, 3)) == 0}
     if mode == "like":
         # template: new coordinates for a subset of dims (+ an unrelated dim)
         t = {}
@@ -208,7 +208,12 @@ def run_case(case):
             kw2["issorted"] = True
             cl.add("issorted:True")
         arg = list(new) if case["new_as"] == "list" else np.array(new, dtype=float)
-        res = lib(lambda: a.interp_axis(arg, axis=axis, **kw2), what=what, sig=sig)
+        if case.get("positional") and "issorted" not in kw2:
+            # the documented signature interp_axis(values, axis=0, left=nan, right=nan, issorted=None), arguments given by position
+            res = lib(lambda: a.interp_axis(arg, axis, left, right), what=what + " [axis, left, right by position]", sig=sig)
+            cl.add("call:positional")
+        else:
+            res = lib(lambda: a.interp_axis(arg, axis=axis, **kw2), what=what, sig=sig)
         newlabels = [list(l) for l in labels]
         newlabels[ax] = list(new)
         core.expect_array(res, dims, newlabels, expected_fn(spec, d, left, right), what, tol=True, sig=sig)
@@ -251,6 +256,15 @@ def run_case(case):
         core.check_shared_axes(res, what, sig)
         check(core.same_labels(res.axes[d].values, new), "dataset-axis", {"what": what, "got": core.jsonable(res.axes[d].values)}, sig)
         check(core.attrs_equal(res.attrs, dspec["attrs"]), "dataset-attrs", {"what": what, "got": core.jsonable(res.attrs)}, sig)
+        # Dataset.interp_like onto a template carrying the same new coordinates: the same result, dataset metadata included
+        tmpl = da.Axes([da.Axis(np.array(new, dtype=float), d)])
+        res2 = lib(lambda: ds.interp_like(tmpl, **kw), what=what + " [Dataset.interp_like(Axes)]", sig=sig)
+        check(isinstance(res2, da.Dataset) and list(res2.keys()) == list(res.keys()), "dataset-keys", {"what": what + " [interp_like]"}, sig)
+        for name, s in dspec["vars"]:
+            core.expect_equal_arrays(res2[name], res[name], what + " [Dataset.interp_like vs interp_axis] var " + name, tol=True, sig=sig)
+            check(core.attrs_equal(res2[name].attrs, s["attrs"]), "variable-attrs", {"what": what + " [interp_like]", "var": name, "got": core.jsonable(res2[name].attrs)}, sig)
+        core.check_shared_axes(res2, what + " [interp_like]", sig)
+        check(core.attrs_equal(res2.attrs, dspec["attrs"]), "dataset-attrs", {"what": what + " [Dataset.interp_like]", "got": core.jsonable(res2.attrs)}, sig)
         cl.add("dataset")
     core.expect_unchanged(a, snap, what, sig)
     return {"classes": sorted(cl), "nontrivial": bool(nontrivial)}
